@@ -115,7 +115,7 @@ class Resolve(Relation):
     coq_case_type = "rcase"
     coq_model = "model_resolve"
     coq_imports = ["C19_Model"]
-    budget = {"quick": 500, "thorough": 6000}
+    budget = {"quick": 800, "thorough": 12000}
     max_cases_per_shard = 120
     anchors = [("haptools/__main__.py", "transform"), ("haptools/__main__.py", "simphenotype"),
                ("haptools/__main__.py", "ld")]
@@ -217,12 +217,14 @@ class Resolve(Relation):
         else:
             coll = lambda c: "None" if c is None else f"(Some {strs(c['v'])})"
             got = f"(Some ({coll(v['got'][0])}, {coll(v['got'][1])}))"
+        kind = lambda c: 0 if c is None else {"set": 1, "tuple": 2}.get(c["t"], 3)
+        kinds = "(0, 0)" if v["got"] is None else f"({kind(v['got'][0])}, {kind(v['got'][1])})"
         return (f"(mkinv {strs(v['sopts'])} {ostr(v['sfile'])} {strs(v['iopts'])} {ostr(v['ifile'])} "
-                f"{L.z(v['exit'])} {got})")
+                f"{L.z(v['exit'])} {got} {kinds})")
 
     def encode(self, inp, obs):
         if "a" not in obs:
-            return f"(mkr {inp['cmd']} (mkinv [] None [] None 97 None) None)"
+            return f"(mkr {inp['cmd']} (mkinv [] None [] None 97 None (0, 0)) None)"
         b = "None" if obs["b"] is None else f"(Some {self._inv(obs['b'])})"
         return f"(mkr {inp['cmd']} {self._inv(obs['a'])} {b})"
 
@@ -272,15 +274,14 @@ class Resolve(Relation):
                     yield dict(inp, **{f: v})
 
     def signature(self, inp, obs):
-        a = obs.get("a", {}) if isinstance(obs, dict) else {}
-        used = [n for n, k, f in (("samples-file", "samples", "sform"), ("ids-file", "ids", "iform"))
-                if inp[k] is not None and inp[f] in ("file", "both")]
-        b = obs.get("b") if isinstance(obs, dict) else None
-        if b and b.get("exc") not in (None, "SystemExit") and not used:
-            used = [n for n, k, f in (("samples-file", "samples", "sform"), ("ids-file", "ids", "iform"))
-                    if inp[k] is not None]
-            return f"resolve respelled-with={'+'.join(used)} raised={b.get('exc')} exit={b.get('exit')}"
-        return f"resolve uses={'+'.join(used) or 'options'} raised={a.get('exc')} exit={a.get('exit')}"
+        runs = [obs.get(k) for k in ("a", "b")] if isinstance(obs, dict) else []
+        runs = [r for r in runs if r]
+        excs = sorted(set(r["exc"] for r in runs if r.get("exc") not in (None, "SystemExit")))
+        idf = any(r["ifile"] is not None for r in runs)
+        sf = any(r["sfile"] is not None for r in runs)
+        both = inp["sform"] == "both"
+        return (f"resolve ids-file-used={idf} samples-file-used={sf} both-sample-forms={both} raised={excs} "
+                f"exits={sorted(set(r['exit'] for r in runs))}")
 
 
 # ---------------------------------------------------------------------------
@@ -371,15 +372,19 @@ def intern_outputs(outdir, I):
 def out_members(cmd, outdir, params):
     """(samples, ids) visible in the output of transform / simphenotype / ld; None where not applicable"""
     try:
+        if cmd == 0 and params.get("pgen"):
+            psam = open(os.path.join(outdir, "out.psam")).read().split("\n")
+            pvar = open(os.path.join(outdir, "out.pvar")).read().split("\n")
+            return ([s.split("\t")[0] for s in psam[1:] if s],
+                    [s.split("\t")[2] for s in pvar if s and not s.startswith("#")])
         if cmd == 0:
             txt = open(os.path.join(outdir, "out.vcf")).read().split("\n")
             hdr = [s for s in txt if s.startswith("#CHROM")][0].split("\t")
             return hdr[9:], [s.split("\t")[2] for s in txt if s and not s.startswith("#")]
         if cmd == 1:
             txt = open(os.path.join(outdir, "out.pheno")).read().split("\n")
-            names = txt[0].split("\t")[1:]
-            ids = sorted(set(x for nme in names for x in nme.split("-")))
-            return [s.split("\t")[0] for s in txt[1:] if s], ids
+            # phenotype names are derived from the IDs plus suffixes: only the samples are read off
+            return [s.split("\t")[0] for s in txt[1:] if s], None
         if cmd == 2:
             if params.get("from_gts"):
                 txt = open(os.path.join(outdir, "out.ld")).read().split("\n")
@@ -398,7 +403,7 @@ class Cli(Relation):
     coq_case_type = "ccase"
     coq_model = "model_cli"
     coq_imports = ["C19_Model"]
-    budget = {"quick": 140, "thorough": 2500}
+    budget = {"quick": 240, "thorough": 4000}
     max_cases_per_shard = 50
     timeout_per_case = 300
     anchors = [("haptools/__main__.py", n) for n in
@@ -452,6 +457,12 @@ class Cli(Relation):
                 if cmd == 0:
                     p["discard_missing"] = bool(rng.random() < 0.3)
                     p["maf"] = [None, None, 0.2][int(rng.integers(0, 3))]
+                    p["pgen"] = bool(rng.random() < 0.25)
+                if cmd == 1:
+                    p["environment"] = 0.5 if (p["heritability"] is None and rng.random() < 0.3) else None
+                if cmd == 2:
+                    p["discard_missing"] = bool(rng.random() < 0.3)
+                p["chunk"] = [None, None, 2][int(rng.integers(0, 3))]
                 if cmd in (0, 2) and rng.random() < 0.15:
                     p["region"] = f"1:{ds['variants'][0][1]}-{ds['variants'][-1][1] + 10}"
                 both = bool(s is not None and s and rng.random() < 0.12)
@@ -477,11 +488,17 @@ class Cli(Relation):
                 for c in cfg["chroms"]:
                     bps = [r[2] for r in cfg["maps"][c]]
                     lo, hi = min(bps), max(bps)
-                    pos = sorted(set(int(x) for x in rng.integers(max(1, lo - 5), hi + 50, size=5)))
+                    pos = set(int(x) for x in rng.integers(max(1, lo - 5), hi + 50, size=5))
+                    if cfg["region"] and rng.random() < 0.9:
+                        # keep the region non-empty (an empty region makes output_vcf raise IndexError)
+                        r_ = cfg["region"]
+                        pos.update(int(x) for x in rng.integers(r_["start"], r_["end"] + 1, size=2))
+                    pos = sorted(pos)
                     for p_ in pos:
                         refs.append([c, p_, rng.integers(0, 2, size=(nref * len(cfg["pops"]), 2)).tolist()])
                 inp["ref"] = refs
                 inp["params"] = {"only_bp": bool(rng.random() < 0.4), "pop_field": bool(rng.random() < 0.3),
+                                 "sample_field": bool(rng.random() < 0.3), "chunk": [None, 3][int(rng.integers(0, 2))],
                                  "no_replacement": False}
             else:
                 nchrom = int(rng.integers(1, 4))
@@ -496,7 +513,7 @@ class Cli(Relation):
                     haps.append(blocks)
                 inp["bp"] = haps
                 inp["params"] = {"title": [None, "My_title"][int(rng.integers(0, 2))],
-                                 "colors": [None, "YRI:blue,CEU:red"][int(rng.integers(0, 2))],
+                                 "colors": [None, "YRI:blue,CEU:red", "YRI:#1f77b4,CEU:green"][int(rng.choice(3, p=[0.2, 0.4, 0.4]))],
                                  "sample": "Sample_1" if rng.random() < 0.9 else "Absent_9"}
             out.append(inp)
         return out
@@ -563,18 +580,23 @@ class Cli(Relation):
             a += selection_args("i", iform, inp["ids"], istyle, sp >> 3, d, tag)[0]
             if p.get("region"):
                 a += ["--region", p["region"]]
+            if p.get("chunk") is not None:
+                a += ["-c" if bit(10) else "--chunk-size", str(p["chunk"])]
         if cmd == 0:
             if p["discard_missing"]:
                 a.append("--discard-missing")
             if p["maf"] is not None:
                 a += ["--maf", str(p["maf"])]
-            a += ["-o" if bit(8) else "--output", os.path.join(outdir, "out.vcf")] + verb + [f["gt"], f["hp"]]
+            a += ["-o" if bit(8) else "--output", os.path.join(outdir, "out.pgen" if p.get("pgen") else "out.vcf")]
+            a += verb + [f["gt"], f["hp"]]
         elif cmd == 1:
             a += ["-r" if bit(9) else "--replications", str(p["replications"])]
             if p["heritability"] is not None:
                 a += ["-h" if bit(10) else "--heritability", str(p["heritability"])]
             if p["prevalence"] is not None:
                 a += ["-p" if bit(9) else "--prevalence", str(p["prevalence"])]
+            if p.get("environment") is not None:
+                a += ["--environment", str(p["environment"])]
             if not p["normalize"]:
                 a.append("--no-normalize")
             a += ["--seed", str(inp["seed"]), "-o" if bit(8) else "--output", os.path.join(outdir, "out.pheno")]
@@ -582,6 +604,8 @@ class Cli(Relation):
         elif cmd == 2:
             if p["from_gts"]:
                 a.append("--from-gts")
+            if p.get("discard_missing"):
+                a.append("--discard-missing")
             out = os.path.join(outdir, "out.ld" if p["from_gts"] else "out.hap")
             a += ["-o" if bit(8) else "--output", out] + verb + [p["target"], f["gt"], f["hp"]]
         elif cmd == 3:
@@ -620,6 +644,10 @@ class Cli(Relation):
                 a.append("--only_breakpoint")
             if p["pop_field"]:
                 a.append("--pop_field")
+            if p.get("sample_field"):
+                a.append("--sample_field")
+            if p.get("chunk") is not None:
+                a += ["-c" if bit(10) else "--chunk-size", str(p["chunk"])]
             a += ["--out", os.path.join(outdir, "sim.vcf")] + verb
         else:
             a += ["--bp", f["bp"], "--sample", p["sample"], "--out", os.path.join(outdir, "k.png")]
@@ -634,7 +662,7 @@ class Cli(Relation):
             pos = [rest[-1]] if cmd == 3 else []
             opts = rest[:-1] if cmd == 3 else rest
             chunks, j = [], 0
-            flags = {"--no-sort", "--sort", "--only_breakpoint", "--pop_field"}
+            flags = {"--no-sort", "--sort", "--only_breakpoint", "--pop_field", "--sample_field"}
             while j < len(opts):
                 if opts[j] in flags:
                     chunks.append(opts[j:j + 1])
@@ -657,19 +685,21 @@ class Cli(Relation):
             from haptools.transform import transform_haps
 
             transform_haps(Path(f["gt"]), Path(f["hp"]), p.get("region"), sset(inp["samples"]), sset(inp["ids"]),
-                           None, p["discard_missing"], False, p["maf"], Path(outdir) / "out.vcf", log)
+                           p.get("chunk"), p["discard_missing"], False, p["maf"],
+                           Path(outdir) / ("out.pgen" if p.get("pgen") else "out.vcf"), log)
         elif cmd == 1:
             from haptools.sim_phenotype import simulate_pt
 
-            simulate_pt(Path(f["hg"]), Path(f["hp"]), p["replications"], None, p["heritability"], p["prevalence"],
-                        p["normalize"], p.get("region"), sset(inp["samples"]), sset(inp["ids"]), None, None,
-                        inp["seed"], Path(outdir) / "out.pheno", log)
+            simulate_pt(Path(f["hg"]), Path(f["hp"]), p["replications"], p.get("environment"), p["heritability"],
+                        p["prevalence"], p["normalize"], p.get("region"), sset(inp["samples"]), sset(inp["ids"]),
+                        p.get("chunk"), None, inp["seed"], Path(outdir) / "out.pheno", log)
         elif cmd == 2:
             from haptools.ld import calc_ld
 
             out = Path(outdir) / ("out.ld" if p["from_gts"] else "out.hap")
             calc_ld(p["target"], Path(f["gt"]), Path(f["hp"]), p.get("region"), sset(inp["samples"]),
-                    None if inp["ids"] is None else tuple(inp["ids"]), None, False, p["from_gts"], out, log)
+                    None if inp["ids"] is None else tuple(inp["ids"]), p.get("chunk"), bool(p.get("discard_missing")),
+                    p["from_gts"], out, log)
         elif cmd == 3:
             from haptools.index import index_haps
 
@@ -696,8 +726,8 @@ class Cli(Relation):
             samples, pop_dict, bps = simulate_gt(f["model"], f["mapdir"], chroms, region, popsize, log, inp["seed"])
             bps = write_breakpoints(samples, pop_dict, bps, out_prefix, log)
             if not p["only_bp"]:
-                output_vcf(bps, chroms, f["model"], f["ref"], f["info"], region, p["pop_field"], False,
-                           p["no_replacement"], out, log, None)
+                output_vcf(bps, chroms, f["model"], f["ref"], f["info"], region, p["pop_field"],
+                           bool(p.get("sample_field")), p["no_replacement"], out, log, p.get("chunk"))
         else:
             from haptools.karyogram import PlotKaryogram
 
@@ -725,6 +755,12 @@ class Cli(Relation):
             try:
                 self._python(inp, f, outdir)
                 res["py"] = {"ok": intern_outputs(outdir, I)}
+            except SystemExit as e:
+                # karyogram reports an absent sample with sys.exit(1)
+                if e.code in (0, None):
+                    res["py"] = {"ok": intern_outputs(outdir, I)}
+                else:
+                    res["py"] = {"err": err_kind(e), "cls": "SystemExit", "msg": str(e.code)}
             except Exception as e:  # noqa
                 res["py"] = {"err": err_kind(e), "cls": type(e).__name__, "msg": str(e)[:200]}
             return res
